@@ -3,6 +3,7 @@
 package app
 
 import (
+	"errors"
 	"sync"
 
 	gohealth "github.com/InVisionApp/go-health/v2"
@@ -35,6 +36,9 @@ func vHealthStart(h *gohealth.Health) error {
 	vProbeMu.Lock()
 	defer vProbeMu.Unlock()
 	if p := vProbeOf[h]; p != nil {
+		if p.running {
+			return gohealth.ErrAlreadyRunning
+		}
 		p.running = true
 	}
 	return nil
@@ -43,6 +47,9 @@ func vHealthStop(h *gohealth.Health) error {
 	vProbeMu.Lock()
 	defer vProbeMu.Unlock()
 	if p := vProbeOf[h]; p != nil {
+		if !p.running {
+			return gohealth.ErrAlreadyStopped
+		}
 		p.running = false
 	}
 	return nil
@@ -51,6 +58,8 @@ func vHealthStop(h *gohealth.Health) error {
 func vBindHealth() {
 	vProbes = map[string]*vProbe{}
 	vProbeOf = map[*gohealth.Health]*vProbe{}
+	verifSetGlobal("github.com/InVisionApp/go-health/v2", "ErrAlreadyRunning", errors.New("Healthcheck is already running - nothing to start"))
+	verifSetGlobal("github.com/InVisionApp/go-health/v2", "ErrAlreadyStopped", errors.New("Healthcheck is not running - nothing to stop"))
 	verifBind("github.com/InVisionApp/go-health/v2.New", vHealthNew)
 	verifBind("(*github.com/InVisionApp/go-health/v2.Health).DisableLogging", vHealthDisableLogging)
 	verifBind("(*github.com/InVisionApp/go-health/v2.Health).AddCheck", vHealthAddCheck)
